@@ -188,7 +188,7 @@ pub fn run(r: &Report) {
     let (p, max_len) = match r.tier {
         Tier::Quick => (
             AstParams {
-                max_lines: 6,
+                max_lines: 5,
                 max_depth: 2,
                 block_kinds: vec![Kind::Expired, Kind::Later, Kind::Targeted],
                 inline_kinds: vec![Kind::Expired],
@@ -199,8 +199,8 @@ pub fn run(r: &Report) {
                 blank: true,
                 rich: false,
                 short_unwrap: false,
-                shared_lines: false,
-                shared_pairs: vec![],
+                shared_lines: true,
+                shared_pairs: vec![(Kind::Expired, Kind::Expired), (Kind::Expired, Kind::Later)],
             },
             3,
         ),
@@ -217,8 +217,8 @@ pub fn run(r: &Report) {
                 blank: true,
                 rich: false,
                 short_unwrap: false,
-                shared_lines: false,
-                shared_pairs: vec![],
+                shared_lines: true,
+                shared_pairs: vec![(Kind::Expired, Kind::Expired), (Kind::Expired, Kind::Later)],
             },
             4,
         ),
